@@ -192,11 +192,15 @@ class Slice(NullCell):
         return self.load_bytes(byte_length).decode()
 
     def load_snake_bytes(self) -> bytes:
-        assert not self.remaining_bits % 8, f'invalid string length: {self.remaining_bits}'
-        assert self.remaining_refs in (0, 1), f'invalid amount of refs: {self.remaining_refs}'
-        if not self.remaining_refs:
-            return self.load_bytes(self.remaining_bits // 8)
-        return self.load_bytes(self.remaining_bits // 8) + self.load_ref().begin_parse().load_snake_bytes()
+        parts = []
+        cur = self
+        while True:
+            assert not cur.remaining_bits % 8, f'invalid string length: {cur.remaining_bits}'
+            assert cur.remaining_refs in (0, 1), f'invalid amount of refs: {cur.remaining_refs}'
+            parts.append(cur.load_bytes(cur.remaining_bits // 8))
+            if not cur.remaining_refs:
+                return b''.join(parts)
+            cur = cur.load_ref().begin_parse()
 
     def load_snake_string(self) -> str:
         return self.load_snake_bytes().decode()
